@@ -189,7 +189,7 @@ Proof.
            rewrite F6, Htxq, app_assoc. reflexivity.
         -- rewrite J. eexists; split; [reflexivity|]. constructor; simpl; rewrite ?PT; try fin.
   - (* Radio *)
-    destruct (txq s) as [|p q] eqn:Q; intros E; inv E; cbn [mstep]; rewrite <- Htxq, Q.
+    destruct (txq s) as [|p q] eqn:Q; intros E; inv E; cbn [mstep]. Show. all: rewrite <- Htxq, Q.
     + eexists; split; [reflexivity|]. constructor; auto.
     + rewrite pdu_eqb_refl. eexists; split; [reflexivity|]. constructor; simpl; try fin.
   - (* MaxTx *)
